@@ -17,6 +17,7 @@ CONSTANTS
   UPDENDS = {3}
   MAXUPD = 2
   ADDS <- t_ADDS
+  MAXSTAKE = 0
   SECONDBAD = FALSE
   FAILBUDGET = 99
 VIEW View
